@@ -25,10 +25,21 @@ def finite_tables(rep, maxn):
 
 
 def _structure_ok(h, w):
+    return all(_structure_ok_mode(h, w, mode) for mode in range(4))
+
+
+def _structure_ok_mode(h, w, mode):
+    """mode: which of the optional edge arrays the caller supplies (0 none, 1 horizontal, 2 vertical, 3 both)"""
     if True:
         if True:
             s = Solver()
-            f = BoolGridFrame(s, h, w)
+            hz = s.bool_array((h + 1, w)) if mode & 1 else None
+            vt = s.bool_array((h, w + 1)) if mode & 2 else None
+            f = BoolGridFrame(s, h, w, horizontal=hz, vertical=vt) if mode else BoolGridFrame(s, h, w)
+            if (hz is not None and f.horizontal is not hz) or (vt is not None and f.vertical is not vt):
+                return False
+            if f.horizontal is None or f.vertical is None:
+                return False
             ok = tuple(f.horizontal.shape) == (h + 1, w) and tuple(f.vertical.shape) == (h, w + 1)
             order = [id(x) for x in f.horizontal.data] + [id(x) for x in f.vertical.data]
             ok = ok and [id(x) for x in f.all_edges().data] == order and [id(x) for x in f] == order
